@@ -563,6 +563,10 @@ func (s *summarizer) fieldTerm(base ssa.Value, field int, ty types.Type) *Term {
 func (s *summarizer) allocTerm(a *ssa.Alloc, ref bool) *Term {
 	elem := derefType(a.Type())
 	init, late, escapes := s.allocStores(a)
+	if len(init) == 0 && len(late) == 1 && late[0].field == "" {
+		// single whole-value assignment (address-taken range variable / local copy): the variable is its value
+		return s.term(late[0].st.Val)
+	}
 	if ref || escapes || len(late) > 0 {
 		if !ref {
 			// value use (argument, return, stored value): initial content tagged with identity
